@@ -445,12 +445,16 @@ def r09_8(prog, rep, rid="R09.8"):
     tables at -1); (b) an admitted value is stored as read (2^32 must not come out as 0: a stream that never advances); (c) the largest
     admitted value survives the fillers' own arithmetic: `inter * K` stays within unsigned int, `signed counter += inter` stays
     positive.  The multipliers and the signed counters are read off the fillers."""
-    for v in (-1, -7):
+    for v in (0, -1, -7):
         outs, f = rrule_scalar_read(prog, "INTERVAL", v)
         acc = [o for o in outs if o[0] == 1]
         key = "snarf_rrule/INTERVAL=%d" % v
         bad = [o for o in acc if o[2] is None or o[2] > 0x7fffffff or o[2] <= 0]
-        if bad:
+        if bad and v == 0:
+            rep.fail(rid, key, f.loc(), "INTERVAL=0 is accepted and stored as %s: the fillers without a tries counter step by nothing and never "
+                     "return, the monthly one computes `%% rr->inter` — a division by zero" % sorted({o[2] for o in bad}, key=str),
+                     {"outcomes": [list(o) for o in outs]})
+        elif bad:
             rep.fail(rid, key, f.loc(), "INTERVAL=%d is accepted and stored as %s: the fillers then step their month/day counters backwards "
                      "(m += 4294967295 is m - 1) below 1 and read the month-length table out of bounds" % (v, sorted({o[2] for o in bad}, key=str)),
                      {"outcomes": [list(o) for o in outs]})
